@@ -136,6 +136,73 @@ package fptower
 //@ modifies z
 //@ end
 
+// E2.Sqrt, p = 1 mod 4 variant. The exponentiations are opaque (d = Exp(u, (q-1)/2), b = Exp(x, (q-1)/4): the
+// operands and exponent values are proved, the results are arbitrary). Proved as ring identities: the branch test
+// compares norm(b) with 1; the base-field root s is taken of the first coordinate of x0 = b^2 x (resp. b^2 x f,
+// f = (d u)^2); z = s conj(b) (resp. s conj(b) e, e (d u) = n inv(n) by the contract of Inverse); and on the first
+// branch z^2 = x + conj(b)^2 (s^2 - x0.A0) - conj(b)^2 (0, x0.A1) + (norm(b)^2 - 1) x: z^2 = x as soon as s is a
+// root of x0.A0, x0 lies in the base field and the norm is 1 (the branch condition). That these hold for a
+// square x is number theory about the exponents and is not claimed.
+//@ func E2.Sqrt
+//@ tags any
+//@ layer bigint big.Int ring fp.Element
+//@ option opaque Exp
+//@ option distribute
+//@ option split-post
+//@ ghost cx0 = 0
+//@ ghost cx1 = 0
+//@ ghost d0 = 0
+//@ ghost d1 = 0
+//@ ghost k1 = 0
+//@ cut after call Exp #1
+//@ + ghost cx0 = callarg1.A0
+//@ + ghost cx1 = callarg1.A1
+//@ + ghost d0 = callarg0.A0
+//@ + ghost d1 = callarg0.A1
+//@ + ghost k1 = *callarg2
+//@ ghost bx0 = 0
+//@ ghost bx1 = 0
+//@ ghost b0 = 0
+//@ ghost b1 = 0
+//@ ghost k2 = 0
+//@ cut after call Exp #2
+//@ + ghost bx0 = callarg1.A0
+//@ + ghost bx1 = callarg1.A1
+//@ + ghost b0 = callarg0.A0
+//@ + ghost b1 = callarg0.A1
+//@ + ghost k2 = *callarg2
+//@ ghost eq = false
+//@ ghost n = 0
+//@ ghost one = 0
+//@ cut after call Equal #1
+//@ + ghost eq = callresult
+//@ + ghost n = *callarg0
+//@ + ghost one = *callarg1
+//@ ghost sa = 0
+//@ ghost s = 0
+//@ cut after call Set #2
+//@ + ghost sa = *callarg0
+//@ cut after call Sqrt #1
+//@ + ghost s = *callarg0
+//@ ghost e0 = 0
+//@ ghost e1 = 0
+//@ cut after call Inverse #1
+//@ + ghost e0 = callarg0.A0
+//@ + ghost e1 = callarg0.A1
+//@ ensures[exp1] cx0 == 0 && cx1 == 1 && 2*k1 + 1 == qof(fp) 
+//@ ensures[exp2] bx0 == old(x.A0) && bx1 == old(x.A1) && 4*k2 + 1 == qof(fp)
+//@ ensures[norm] n == qnorm((-5), svec(2, 0, b0, 1, b1)) && one == 1
+//@ ensures[sqrt] hasroot(sa) ==> s == sqrt(sa)
+//@ ensures[root-1] eq ==> sa == qmul((-5), qsq((-5), svec(2, 0, b0, 1, b1)), old(vec(x)))[0]
+//@ ensures[value-1] eq ==> vec(z) == vscale(s, vconj2(svec(2, 0, b0, 1, b1)))
+//@ ensures[square-1] eq ==> qsq((-5), vec(z)) == vadd(vadd(vadd(old(vec(x)), vscale(s*s - sa, qsq((-5), vconj2(svec(2, 0, b0, 1, b1))))), vscale(-1, qmul((-5), qsq((-5), vconj2(svec(2, 0, b0, 1, b1))), svec(2, 1, qmul((-5), qsq((-5), svec(2, 0, b0, 1, b1)), old(vec(x)))[1])))), vscale(n*n - 1, old(vec(x))))
+//@ ensures[inverse-2] !eq ==> qmul((-5), svec(2, 0, e0, 1, e1), qmul((-5), svec(2, 0, d0, 1, d1), svec(2, 0, 0, 1, 1))) == svec(2, 0, qnorm((-5), qmul((-5), svec(2, 0, d0, 1, d1), svec(2, 0, 0, 1, 1))) * inv(qnorm((-5), qmul((-5), svec(2, 0, d0, 1, d1), svec(2, 0, 0, 1, 1)))))
+//@ ensures[root-2] !eq ==> sa == qmul((-5), qmul((-5), qsq((-5), svec(2, 0, b0, 1, b1)), old(vec(x))), qsq((-5), qmul((-5), svec(2, 0, d0, 1, d1), svec(2, 0, 0, 1, 1))))[0]
+//@ ensures[value-2] !eq ==> vec(z) == qmul((-5), vscale(s, vconj2(svec(2, 0, b0, 1, b1))), svec(2, 0, e0, 1, e1))
+//@ ensures[result] result == z
+//@ modifies z
+//@ end
+
 // ---------------- E6 over E2 ----------------
 
 //@ func E6.Inverse
